@@ -786,4 +786,131 @@ mutual
 end
 
 
+/-! ### The denoted literal coerces back -/
+
+theorem litOfFields_keys (fs : List (String × Value)) :
+    (litOfFields fs).map (fun f => String.ofList f.1) = fs.map (·.1) := by
+  induction fs with
+  | nil => rfl
+  | cons p fs ih =>
+    obtain ⟨k, v⟩ := p
+    simp [litOfFields, ih]
+
+theorem filterMap_eq_nil_of {α β : Type} {f : α → Option β} {l : List α} (h : ∀ a ∈ l, f a = none) :
+    l.filterMap f = [] := by
+  induction l with
+  | nil => rfl
+  | cons a l ih =>
+    simp [h a List.mem_cons_self, ih (fun b hb => h b (List.mem_cons_of_mem _ hb))]
+
+mutual
+  theorem coerce_litOf {ι : Type} (d : SchemaDef ι) :
+      ∀ (v : Value) (t : TRef), nf d t v = true → coerceLit d t (litOf v) = some v
+    | .null, t, h => by
+      simp only [nf, Bool.not_eq_true'] at h
+      simp [litOf, coerceLit, h]
+    | .int i, t, h => by
+      unfold nf at h
+      simp only [litOf, coerceLit]
+      split at h
+      · rename_i n hs
+        simp only [Bool.or_eq_true, Bool.and_eq_true, beq_iff_eq] at h
+        rcases h with ⟨rfl, h⟩ | ⟨rfl, h⟩
+        · simp [h]
+        · simp [h]
+      · simp at h
+    | .float x, t, h => by simp [nf] at h
+    | .str x, t, h => by
+      unfold nf at h
+      simp only [litOf, coerceLit]
+      split at h
+      · rename_i n hs
+        simp only [Bool.or_eq_true, beq_iff_eq] at h
+        simp [h, String.ofList_toList]
+      · simp at h
+    | .bool b, t, h => by
+      unfold nf at h
+      simp only [litOf, coerceLit]
+      split at h
+      · rename_i n hs
+        simp only [beq_iff_eq] at h
+        simp [h]
+      · simp at h
+    | .enum name, t, h => by
+      unfold nf at h
+      simp only [litOf, coerceLit]
+      split at h
+      · rename_i n hs
+        split at h
+        · rename_i td hl
+          simp only [String.ofList_toList]
+          simp [h]
+        · simp at h
+      · simp at h
+    | .list vs, t, h => by
+      unfold nf at h
+      simp only [litOf, coerceLit]
+      split at h
+      · rename_i item hs
+        simp [coerce_litOfList d vs item h]
+      · simp at h
+    | .obj fs, t, h => by
+      unfold nf at h
+      simp only [litOf, coerceLit]
+      split at h
+      · rename_i n hs
+        split at h
+        · rename_i td hl
+          simp only [Bool.and_eq_true] at h
+          obtain ⟨⟨⟨hk, hnd⟩, hnf⟩, hall⟩ := h
+          have hgiven := coerce_litOfFields d td.inputs fs hnf
+          rw [litOfFields_keys, hk, hnd, hgiven]
+          simp only [Bool.and_self, if_true]
+          have hcond : (td.inputs.all fun a =>
+              fs.any (fun g => g.1 == a.name) || a.default.isSome || !isNonNull a.type.ref) = true := by
+            rw [List.all_eq_true] at hall ⊢
+            intro a ha
+            have := hall a ha
+            simp only [Bool.or_eq_true, Bool.and_eq_true] at this ⊢
+            rcases this with h1 | h2
+            · exact Or.inl (Or.inl h1)
+            · exact Or.inr h2.2
+          rw [hcond]
+          simp only [if_true]
+          have hnone : ((td.inputs.filter (fun a => !fs.any (fun g => g.1 == a.name))).filterMap
+              (fun a => a.default.map (fun v => (a.name, v)))) = [] := by
+            apply filterMap_eq_nil_of
+            intro a ha
+            rw [List.mem_filter] at ha
+            rw [List.all_eq_true] at hall
+            have := hall a ha.1
+            simp only [Bool.or_eq_true, Bool.and_eq_true] at this
+            rcases this with h1 | h2
+            · simp [h1] at ha
+            · have : a.default = none := by simpa using h2.1
+              simp [this]
+          rw [hnone]
+          simp
+        · simp at h
+      · simp at h
+  theorem coerce_litOfList {ι : Type} (d : SchemaDef ι) :
+      ∀ (vs : List Value) (item : TRef), nfList d item vs = true → coerceItems d item (litOfList vs) = some vs
+    | [], item, _ => by simp [litOfList, coerceItems]
+    | v :: vs, item, h => by
+      simp only [nfList, Bool.and_eq_true] at h
+      simp [litOfList, coerceItems, coerce_litOf d v item h.1, coerce_litOfList d vs item h.2]
+  theorem coerce_litOfFields {ι : Type} (d : SchemaDef ι) (inputs : List (InputValueDef ι)) :
+      ∀ (fs : List (String × Value)), nfFields d inputs fs = true → coerceFields d inputs (litOfFields fs) = some fs
+    | [], _ => by simp [litOfFields, coerceFields]
+    | (k, v) :: fs, h => by
+      simp only [nfFields, Bool.and_eq_true] at h
+      obtain ⟨h1, h2⟩ := h
+      split at h1
+      · rename_i a ha
+        simp [litOfFields, coerceFields, String.ofList_toList, ha, coerce_litOf d v a.type.ref h1,
+          coerce_litOfFields d inputs fs h2]
+      · simp at h1
+end
+
+
 end ApiFu.C10
